@@ -348,3 +348,247 @@ Proof.
   intros orc ts i t attrs e N A NE. cbn [run_op]. unfold with_tree. rewrite N, A. cbn.
   destruct e; try reflexivity. contradiction.
 Qed.
+
+(* ================================================================================================ *)
+(* C13 — generated statistics                                                                        *)
+(* ================================================================================================ *)
+(* The analysis of one diff section, separated from the update of the metadata: what generate_stats computes from
+   the diff section alone. *)
+Inductive fs_outcome := FSkip | FStats (dels ins : Z) | FErr (e : exn).
+
+(* the newline used to split the diff: declared line endings, or guessed, in the declared encoding *)
+Definition fs_newline (o : dopts) (diff : bytes) : res bytes :=
+  let enc := text_of (kw o "encoding") in
+  if wv_truthy (kw o "line_endings")
+  then match text_of (kw o "line_endings") with
+       | Some le => get_newline_for_type le enc
+       | None => Err EValue
+       end
+  else do p <- guess_line_endings_bytes diff enc; Ok (snd p).
+
+(* the UTF-8 version of (diff, newline) when both decode in the declared encoding *)
+Definition fs_recode (enc : option bytes) (diff newline : bytes) : res (bytes * bytes) :=
+  match enc with
+  | Some e =>
+      match py_decode diff e with
+      | Ok t =>
+          match py_decode newline e with
+          | Ok nt => match c_enc utf8 t, c_enc utf8 nt with
+                     | Some a, Some b => Ok (a, b)
+                     | _, _ => Ok (diff, newline)
+                     end
+          | Err EUnmodelled => Err EUnmodelled
+          | Err _ => Ok (diff, newline)
+          end
+      | Err EUnmodelled => Err EUnmodelled
+      | Err _ => Ok (diff, newline)
+      end
+  | None => Ok (diff, newline)
+  end.
+
+Definition binary_type : wv := WStr (ascii_text GenText.diff_type_binary).
+
+Definition fs_analyse (d : dsec) : fs_outcome :=
+  match x_content d with
+  | None => FSkip
+  | Some diff =>
+      if is_nil diff then FSkip else
+      let o := x_opts d in
+      if wv_eq (kw o "type") binary_type then FSkip else
+      match fs_newline o diff with
+      | Err e => FErr e
+      | Ok newline =>
+          match fs_recode (text_of (kw o "encoding")) diff newline with
+          | Err e => FErr e
+          | Ok (diff', newline') =>
+              match split_lines diff' newline' false with
+              | Err _ => FSkip
+              | Ok lines =>
+                  match get_unified_diff_hunks lines true with
+                  | Malformed _ _ _ => FSkip
+                  | HunksOk _ _ dels ins => FStats dels ins
+                  end
+              end
+          end
+      end
+  end.
+
+Definition file_stat_list (dels ins : Z) : list (text * json) :=
+  [stat "deletions" dels; stat "insertions" ins; stat "lines changed" (dels + ins)%Z].
+Definition with_file_meta (f : dfile) (m : list (text * json)) : dfile :=
+  {| f_opts := f_opts f; f_meta := {| m_opts := m_opts (f_meta f); m_content := m |}; f_diff := f_diff f |}.
+
+Lemma file_stats_eq : forall f,
+  file_stats f = match fs_analyse (f_diff f) with
+                 | FSkip => Ok f
+                 | FErr e => Err e
+                 | FStats dels ins => do m <- merge_stats (m_content (f_meta f)) (file_stat_list dels ins); Ok (with_file_meta f m)
+                 end.
+Proof.
+  intro f. unfold file_stats, fs_analyse, fs_newline, fs_recode, binary_type, bind.
+  repeat match goal with
+         | |- context [match ?x with _ => _ end] => destruct x eqn:?; try reflexivity
+         end.
+Qed.
+
+(* ---- dict.update / the 'stats' entry ---- *)
+Definition skey (s : String.string) : text := ascii_text (B s).
+Definition stats_key : text := skey "stats".
+(* the statistics object already present in a metadata dict ({} when there is none) *)
+Definition old_stats (m : list (text * json)) : list (text * json) :=
+  match jget "stats" m with Some (JObj o) => o | _ => [] end.
+
+Lemma jupdate_get_notin : forall src d k, ~ In k (map fst src) -> assoc_get teq k (jupdate src d) = assoc_get teq k d.
+Proof.
+  induction src as [|[k0 v0] src IH]; cbn; intros d k H; auto.
+  rewrite IH by tauto. apply aget_set_other_t. intro; subst; apply H; auto.
+Qed.
+Lemma jupdate_get_in : forall src d k v, NoDup (map fst src) -> In (k, v) src -> assoc_get teq k (jupdate src d) = Some v.
+Proof.
+  induction src as [|[k0 v0] src IH]; cbn; intros d k v ND I; [tauto|].
+  inversion ND as [|? ? N1 N2]; subst. destruct I as [I|I].
+  - injection I as -> ->. rewrite jupdate_get_notin by auto. apply aget_set_same_t.
+  - apply IH; auto.
+Qed.
+Lemma jupdate_fixed : forall src d, (forall k v, In (k, v) src -> assoc_get teq k d = Some v) -> jupdate src d = d.
+Proof.
+  induction src as [|[k0 v0] src IH]; cbn; intros d H; auto.
+  rewrite (aset_same teq teq_eq) by auto. apply IH. auto.
+Qed.
+Lemma jupdate_idem : forall src d, NoDup (map fst src) -> jupdate src (jupdate src d) = jupdate src d.
+Proof. intros. apply jupdate_fixed. intros. apply jupdate_get_in; auto. Qed.
+Lemma jupdate_disjoint : forall src dst, NoDup (map fst src) -> (forall k, In k (map fst src) -> ~ In k (map fst dst)) ->
+  jupdate src dst = dst ++ src.
+Proof.
+  induction src as [|[k v] src IH]; cbn; intros dst ND H; [rewrite app_nil_r; auto|].
+  inversion ND as [|? ? N1 N2]; subst.
+  rewrite (aset_keys_absent teq teq_eq) by (apply H; auto).
+  rewrite IH; auto.
+  - rewrite <- app_assoc. reflexivity.
+  - intros k' I. rewrite map_app, in_app_iff. cbn. intros [F|[F|[]]].
+    + eapply H; eauto.
+    + subst. contradiction.
+Qed.
+Lemma jupdate_nil : forall src, NoDup (map fst src) -> jupdate src [] = src.
+Proof. intros. rewrite jupdate_disjoint; auto. Qed.
+(* update keeps the position of the keys that were there, and appends the new ones *)
+Lemma jupdate_keys_incl : forall src d k, In k (map fst d) -> In k (map fst (jupdate src d)).
+Proof.
+  induction src as [|[k0 v0] src IH]; cbn; intros d k H; auto.
+  apply IH. destruct (in_dec (list_eq_dec N.eq_dec) k0 (map fst d)) as [I|I].
+  - rewrite (aset_keys_present teq teq_eq); auto.
+  - rewrite (aset_keys_absent teq teq_eq), map_app, in_app_iff; auto.
+Qed.
+
+Lemma merge_stats_eq : forall m st m', NoDup (map fst st) -> merge_stats m st = Ok m' ->
+  m' = jset "stats" (JObj (jupdate st (old_stats m))) m.
+Proof.
+  intros m st m' ND H. unfold merge_stats, old_stats in *.
+  destruct (jget "stats" m) as [[]|]; try discriminate; injection H as <-; auto.
+  rewrite jupdate_nil; auto.
+Qed.
+Lemma merge_stats_total : forall m st, (jget "stats" m = None \/ exists o, jget "stats" m = Some (JObj o)) ->
+  exists m', merge_stats m st = Ok m'.
+Proof. intros m st [H|[o H]]; unfold merge_stats; rewrite H; eauto. Qed.
+Lemma merge_stats_spec : forall m st m', NoDup (map fst st) -> merge_stats m st = Ok m' ->
+  jget "stats" m' = Some (JObj (jupdate st (old_stats m))) /\
+  assoc_del teq stats_key m' = assoc_del teq stats_key m /\
+  (forall k, k <> stats_key -> assoc_get teq k m' = assoc_get teq k m).
+Proof.
+  intros m st m' ND H. rewrite (merge_stats_eq _ _ _ ND H). unfold jset, jget. fold stats_key. fold (skey "stats"). fold stats_key.
+  repeat split.
+  - apply aget_set_same_t.
+  - apply (adel_set teq teq_eq).
+  - intros k N. apply aget_set_other_t. auto.
+Qed.
+Lemma merge_stats_old : forall m st m', NoDup (map fst st) -> merge_stats m st = Ok m' ->
+  old_stats m' = jupdate st (old_stats m).
+Proof. intros m st m' ND H. destruct (merge_stats_spec _ _ _ ND H) as [E _]. unfold old_stats at 1. rewrite E. auto. Qed.
+Lemma merge_stats_idem : forall m st m', NoDup (map fst st) -> merge_stats m st = Ok m' -> merge_stats m' st = Ok m'.
+Proof.
+  intros m st m' ND H. destruct (merge_stats_spec _ _ _ ND H) as [E _].
+  unfold merge_stats. rewrite E, jupdate_idem by auto. f_equal.
+  apply (aset_same teq teq_eq). exact E.
+Qed.
+
+Lemma NoDup_file_keys : forall d i, NoDup (map fst (file_stat_list d i)).
+Proof. intros. cbn. repeat constructor; cbn; intro H; repeat destruct H as [H|H]; try discriminate H; auto. Qed.
+
+(* ---- C13_skip ---- *)
+Theorem C13_skip : forall f,
+  (x_content (f_diff f) = None -> file_stats f = Ok f) /\
+  (x_content (f_diff f) = Some [] -> file_stats f = Ok f) /\
+  (wv_eq (kw (x_opts (f_diff f)) "type") binary_type = true -> file_stats f = Ok f) /\
+  (forall diff nl diff' nl',
+     x_content (f_diff f) = Some diff ->
+     fs_newline (x_opts (f_diff f)) diff = Ok nl ->
+     fs_recode (text_of (kw (x_opts (f_diff f)) "encoding")) diff nl = Ok (diff', nl') ->
+     (forall lines, split_lines diff' nl' false = Ok lines ->
+                    exists l n e, get_unified_diff_hunks lines true = Malformed l n e) ->
+     file_stats f = Ok f).
+Proof.
+  intro f. rewrite file_stats_eq. unfold fs_analyse. repeat split.
+  - intros ->. reflexivity.
+  - intros ->. reflexivity.
+  - intros H. destruct (x_content (f_diff f)) as [d|]; auto. destruct (is_nil d); auto. rewrite H. reflexivity.
+  - intros diff nl diff' nl' -> N R H. destruct (is_nil diff); auto.
+    destruct (wv_eq _ _); auto. rewrite N, R.
+    destruct (split_lines diff' nl' false) as [lines|]; auto.
+    destruct (H lines eq_refl) as (l & n & e & ->). reflexivity.
+Qed.
+
+(* ---- C13_file ---- *)
+Lemma fs_analyse_stats : forall d diff nl diff' nl' lines hs n dels ins,
+  x_content d = Some diff -> diff <> [] -> wv_eq (kw (x_opts d) "type") binary_type = false ->
+  fs_newline (x_opts d) diff = Ok nl ->
+  fs_recode (text_of (kw (x_opts d) "encoding")) diff nl = Ok (diff', nl') ->
+  split_lines diff' nl' false = Ok lines ->
+  get_unified_diff_hunks lines true = HunksOk hs n dels ins ->
+  fs_analyse d = FStats dels ins.
+Proof.
+  intros d diff nl diff' nl' lines hs n dels ins C NE T N R S G. unfold fs_analyse.
+  rewrite C. destruct diff; [contradiction|]. cbn [is_nil]. rewrite T, N, R, S, G. reflexivity.
+Qed.
+
+Theorem C13_file : forall f f' diff nl diff' nl' lines hs n dels ins,
+  x_content (f_diff f) = Some diff -> diff <> [] -> wv_eq (kw (x_opts (f_diff f)) "type") binary_type = false ->
+  fs_newline (x_opts (f_diff f)) diff = Ok nl ->
+  fs_recode (text_of (kw (x_opts (f_diff f)) "encoding")) diff nl = Ok (diff', nl') ->
+  split_lines diff' nl' false = Ok lines ->
+  get_unified_diff_hunks lines true = HunksOk hs n dels ins ->
+  file_stats f = Ok f' ->
+  let old := old_stats (m_content (f_meta f)) in
+  let st' := jupdate (file_stat_list dels ins) old in
+  f_opts f' = f_opts f /\ f_diff f' = f_diff f /\ m_opts (f_meta f') = m_opts (f_meta f) /\
+  m_content (f_meta f') = jset "stats" (JObj st') (m_content (f_meta f)) /\
+  jget "stats" (m_content (f_meta f')) = Some (JObj st') /\
+  jget "deletions" st' = Some (JInt dels) /\ jget "insertions" st' = Some (JInt ins) /\
+  jget "lines changed" st' = Some (JInt (dels + ins)) /\
+  (forall k, k <> skey "deletions" -> k <> skey "insertions" -> k <> skey "lines changed" ->
+             assoc_get teq k st' = assoc_get teq k old) /\
+  (forall k, In k (map fst old) -> In k (map fst st')) /\
+  (forall k, k <> stats_key -> assoc_get teq k (m_content (f_meta f')) = assoc_get teq k (m_content (f_meta f))).
+Proof.
+  intros f f' diff nl diff' nl' lines hs n dels ins C NE T N R S G H old st'.
+  rewrite file_stats_eq, (fs_analyse_stats _ _ _ _ _ _ _ _ _ _ C NE T N R S G) in H.
+  inv_bind H. injection H as <-. cbn [with_file_meta f_opts f_diff f_meta m_opts m_content].
+  pose proof (NoDup_file_keys dels ins) as ND.
+  destruct (merge_stats_spec _ _ _ ND E) as (E1 & _ & E3).
+  repeat split; auto.
+  - apply merge_stats_eq; auto.
+  - unfold jget. apply jupdate_get_in; cbn; auto.
+  - unfold jget. apply jupdate_get_in; cbn; auto.
+  - unfold jget. apply jupdate_get_in; cbn; auto.
+  - intros k K1 K2 K3. apply jupdate_get_notin. cbn. unfold skey in *. intros [F|[F|[F|[]]]]; congruence.
+  - intros k. apply jupdate_keys_incl.
+Qed.
+(* and the update does happen whenever the existing 'stats' entry, if any, is a dict *)
+Theorem C13_file_total : forall f dels ins,
+  fs_analyse (f_diff f) = FStats dels ins ->
+  (jget "stats" (m_content (f_meta f)) = None \/ exists o, jget "stats" (m_content (f_meta f)) = Some (JObj o)) ->
+  file_stats f = Ok (with_file_meta f (jset "stats" (JObj (jupdate (file_stat_list dels ins) (old_stats (m_content (f_meta f))))) (m_content (f_meta f)))).
+Proof.
+  intros f dels ins A H. rewrite file_stats_eq, A.
+  destruct (merge_stats_total _ (file_stat_list dels ins) H) as [m' M]. rewrite M. cbn.
+  rewrite (merge_stats_eq _ _ _ (NoDup_file_keys dels ins) M). reflexivity.
+Qed.
